@@ -104,19 +104,30 @@ def asaApplyBody : Sess :=
      (.abort ["Command 'write memory' failed, missing [OK] in output:\n%s", "_"]) .skip) ;;
   .ret .nil ["nil"]
 
+/-- the closure `waitPrompt` of cisco.LoginEnable -/
+def ciscoWaitPromptBody (t : Txt) : Sess :=
+  IssueCmd .login t (.stdOr [.gt, .password]) ["_", "_"] ;; .ret .none ["_"]
+def ciscoWaitPrompt (t : Txt) (lits : List String) : Sess := .call "waitPrompt" lits (ciscoWaitPromptBody t)
+
 /-- cisco.LoginEnable (shared by ASA and IOS). -/
-def ciscoLoginEnable : Sess :=
-  WaitLogin .login (.special [.password, .yesNo]) ["_"] ;;
-  .ite (.flag .yesNo) "strings.HasSuffix(out, \"?\")" (IssueCmd .login (.lit "yes") (.special [.password]) ["yes", "_"]) .skip ;;
-  IssueCmd .login .secret (.stdOr [.gt, .password]) ["_", "_"] ;;
+def ciscoLoginEnableBody : Sess :=
+  WaitLogin .login (.special [.password, .yesNo]) ["(?i)password:|\\(yes/no.*\\)\\?"] ;;
+  .ite (.flag .yesNo) "strings.HasSuffix(out, \"?\")"
+    (IssueCmd .login (.lit "yes") (.special [.password]) ["yes", "(?i)password:"]) .skip ;;
+  ciscoWaitPrompt .secret ["_", ">"] ;;
   .ite (.flag .gt) "waitPrompt(pass, \">\")"
-    (IssueCmd .login (.lit "enable") (.stdOr [.gt, .password]) ["_", "_"] ;;
+    (ciscoWaitPrompt (.lit "enable") ["enable", "#"] ;;
      .ite (.not (.flag .hash)) "!waitPrompt(\"enable\", \"#\")"
-       (IssueCmd .login .secret (.stdOr [.gt, .password]) ["_", "_"] ;;
-        .ite (.not (.flag .hash)) "!waitPrompt(pass, \"#\")" (.abort ["Authentication for enable mode failed"]) .skip)
+       -- the password is sent only if the device asks for it; without `#` afterwards: abort
+       (.when (.flag .password) (ciscoWaitPrompt .secret ["_", "#"]) ;;
+        .ite (.not (.flag .hash))
+          "!strings.HasSuffix(strings.ToLower(out), \"password:\") || !waitPrompt(pass, \"#\")"
+          (.abort ["Authentication for enable mode failed"]) .skip)
        .skip)
     (.ite (.not (.flag .hash)) "!strings.HasSuffix(out, \"#\")" (.abort ["Authentication failed"]) .skip) ;;
-  IssueCmd .login (.lit "") .std ["", "#[ ]?"]
+  IssueCmd .login (.lit "") .std ["", "#[ ]?"] ;;
+  op "checkBanner" ["_", "_"]
+def ciscoLoginEnable : Sess := .call "LoginEnable" ["_", "_"] ciscoLoginEnableBody
 
 def asaSetTerminal : Sess :=
   GetCmdOutput .read (.lit "sh pager") ["sh pager"] ;;
@@ -131,12 +142,24 @@ def asaSetTerminal : Sess :=
 def checkNameAbort : Sess :=
   .ite (.not (.flag .nameOk)) "name != out" (.abort ["Wrong device name: %q, expected: %q", "_", "_"]) .skip
 
+/-- the prologue of the console backends' LoadDevice: credentials and the ssh process -/
+def consolePrologue : Sess :=
+  op "GetUserPass" ["_"] ;;
+  .ite .never "err != nil" (.ret .keep ["nil", "err"]) .skip ;;
+  op "GetSSHConn" ["_", "_", "_", "_"] ;;
+  .ite .never "err != nil" (.ret .keep ["nil", "err"]) .skip
+
+def asaLogVersionBody : Sess := GetCmdOutput .read (.lit "sh ver") ["sh ver"]
+def asaCheckDeviceNameBody : Sess := GetCmdOutput .read (.lit "show hostname") ["show hostname"] ;; checkNameAbort
+
 def asaLoadDevice : Sess :=
+  consolePrologue ;;
   ciscoLoginEnable ;;
   .call "setTerminal" [] asaSetTerminal ;;
-  .call "logVersion" [] (GetCmdOutput .read (.lit "sh ver") ["sh ver"]) ;;
-  .call "checkDeviceName" ["_"] (GetCmdOutput .read (.lit "show hostname") ["show hostname"] ;; checkNameAbort) ;;
+  .call "logVersion" [] asaLogVersionBody ;;
+  .call "checkDeviceName" ["_"] asaCheckDeviceNameBody ;;
   GetCmdOutput .read (.lit "write term") ["write term"] ;;
+  op "ParseConfig" ["_", "<device>"] ;;
   .setPlan ;;
   .ret .nil ["_", "err"]
 
@@ -206,14 +229,22 @@ def iosApplyBody : Sess :=
   iosWriteMem ;;
   .ret .nil ["nil"]
 
+def iosSetTerminalBody : Sess :=
+  SendCmd .setup (.lit "term len 0") ["term len 0"] ;; SendCmd .setup (.lit "term width 512") ["term width 512"]
+def iosLogVersionBody : Sess := GetCmdOutput .read (.lit "sh ver") ["sh ver"]
+/-- the name is taken from everything in front of the prompt: a garbled echo spoils it too -/
+def iosCheckDeviceNameBody : Sess :=
+  IssueCmd .read (.lit "") .std ["", "#[ ]?"] ;;
+  .ite (.or (.not (.flag .nameOk)) .echoBad) "name != out" (.abort ["Wrong device name: %q, expected: %q", "_", "_"]) .skip
+
 def iosLoadDevice : Sess :=
+  consolePrologue ;;
   ciscoLoginEnable ;;
-  .call "setTerminal" [] (SendCmd .setup (.lit "term len 0") ["term len 0"] ;; SendCmd .setup (.lit "term width 512") ["term width 512"]) ;;
-  .call "logVersion" [] (GetCmdOutput .read (.lit "sh ver") ["sh ver"]) ;;
-  .call "checkDeviceName" ["_"] (IssueCmd .read (.lit "") .std ["", "#[ ]?"] ;;
-     -- the name is taken from everything in front of the prompt: a garbled echo spoils it
-     .ite .echoBad "" (.abort ["Wrong device name: %q, expected: %q", "_", "_"]) .skip ;; checkNameAbort) ;;
+  .call "setTerminal" [] iosSetTerminalBody ;;
+  .call "logVersion" [] iosLogVersionBody ;;
+  .call "checkDeviceName" ["_"] iosCheckDeviceNameBody ;;
   GetCmdOutput .read (.lit "sh run") ["sh run"] ;;
+  op "ParseConfig" ["_", "<device>"] ;;
   .setPlan ;;
   .ret .nil ["_", "err"]
 
@@ -262,20 +293,36 @@ def linuxApplyBody : Sess :=
     (.call "writeStartupRouting" ["_", "_"] linuxWriteStartupRoutingBody) .skip ;;
   .ret .nil ["nil"]
 
+def linuxLoginEnableBody : Sess :=
+  WaitLogin .login (.special [.hash, .password, .yesNo]) ["_"] ;;
+  .ite (.flag .yesNo) "strings.HasSuffix(out, \"?\")" (IssueCmd .login (.lit "yes") (.special [.hash, .password]) ["yes", "_"]) .skip ;;
+  .ite (.flag .password) "strings.HasSuffix(out, \"word:\")" (IssueCmd .login .secret (.special [.hash, .password]) ["_", "_"]) .skip ;;
+  .ite (.flag .password) "strings.HasSuffix(out, \"word:\")" (.abort ["Authentication failed"]) .skip ;;
+  IssueCmd .setup (.lit "PS1=router#") .std ["PS1=router#", "_"]
+
+def linuxLogVersionBody : Sess :=
+  GetCmdOutput .read (.lit "uname -r") ["uname -r"] ;; GetCmdOutput .read (.lit "uname -m") ["uname -m"]
+def linuxCheckDeviceNameBody : Sess := GetCmdOutput .read (.lit "hostname -s") ["hostname -s"] ;; checkNameAbort
+def linuxCheckBannerBody : Sess :=
+  .ite .never "cfg.CheckBanner == nil" (.ret .none []) .skip ;;
+  GetCmdOutput .read (.lit "grep 'NetSPoC' /etc/issue") ["_"] ;; .assumeBanner
+def linuxGetDeviceIPTablesBody : Sess :=
+  GetCmdOutput .read (.lit "iptables-save") ["iptables-save"] ;;
+  .call "parseIPTables" ["_"] (.ite (.not (.flag .cfgParses)) "" (.abort ["Unknown command: %q", "_"]) .skip) ;;
+  .ret .none ["_"]
+def linuxGetDeviceRoutesBody : Sess :=
+  GetCmdOutput .read (.lit "ip route show") ["ip route show"] ;;
+  .call "parseRoutes" ["_"] (.ite (.not (.flag .cfgParses)) "" (.abort ["Unexpected route: %s", "_"]) .skip) ;;
+  .ret .none ["_"]
+
 def linuxLoadDevice : Sess :=
-  .call "loginEnable" ["_", "_"] (
-    WaitLogin .login (.special [.hash, .password, .yesNo]) ["_"] ;;
-    .ite (.flag .yesNo) "strings.HasSuffix(out, \"?\")" (IssueCmd .login (.lit "yes") (.special [.hash, .password]) ["yes", "_"]) .skip ;;
-    .ite (.flag .password) "strings.HasSuffix(out, \"word:\")" (IssueCmd .login .secret (.special [.hash, .password]) ["_", "_"]) .skip ;;
-    .ite (.flag .password) "strings.HasSuffix(out, \"word:\")" (.abort ["Authentication failed"]) .skip ;;
-    IssueCmd .setup (.lit "PS1=router#") .std ["PS1=router#", "_"]) ;;
-  .call "logVersion" [] (GetCmdOutput .read (.lit "uname -r") ["uname -r"] ;; GetCmdOutput .read (.lit "uname -m") ["uname -m"]) ;;
-  .call "checkDeviceName" ["_"] (GetCmdOutput .read (.lit "hostname -s") ["hostname -s"] ;; checkNameAbort) ;;
-  .call "checkBanner" ["_"] (GetCmdOutput .read (.lit "grep 'NetSPoC' /etc/issue") ["_"] ;; .assumeBanner) ;;
-  .call "getDeviceIPTables" [] (GetCmdOutput .read (.lit "iptables-save") ["iptables-save"] ;;
-     .ite (.not (.flag .cfgParses)) "" (.abort ["Unknown command: %q", "_"]) .skip) ;;
-  .call "getDeviceRoutes" [] (GetCmdOutput .read (.lit "ip route show") ["ip route show"] ;;
-     .ite (.not (.flag .cfgParses)) "" (.abort ["Unexpected route: %s", "_"]) .skip) ;;
+  consolePrologue ;;
+  .call "loginEnable" ["_", "_"] linuxLoginEnableBody ;;
+  .call "logVersion" [] linuxLogVersionBody ;;
+  .call "checkDeviceName" ["_"] linuxCheckDeviceNameBody ;;
+  .call "checkBanner" ["_"] linuxCheckBannerBody ;;
+  .call "getDeviceIPTables" [] linuxGetDeviceIPTablesBody ;;
+  .call "getDeviceRoutes" [] linuxGetDeviceRoutesBody ;;
   .setPlan ;;
   .ret .nil ["_", "err"]
 
